@@ -120,6 +120,7 @@ func HashClean() {
 			bad = true
 		}
 	}
+	sym.Baseline()
 	digest, err := hash.New().Hash(list)
 	sym.Reach("C18/returned")
 	sym.Observe("error", err != nil)
